@@ -1,34 +1,51 @@
 #!/bin/bash
-# Two executables: readline.h and readlinexx.h (and vterm.h / vtermxx.h) share include guards.
+# Executables: readline.h and readlinexx.h (and vterm.h / vtermxx.h) share include guards, so the C
+# and the C++ flavour are separate programs; each is built a second time with -DNDEBUG (release
+# mode: assert() and everything hanging on it vanish) and re-runs a cheap selection of sub-checks.
 set -e
 . $MC/par.sh
 H=$VERIF/harness/c15
 SAN="-O1 -g -fsanitize=address -fno-omit-frame-pointer"
-CXX="-std=c++17 $SAN -I$REPO -I$MC -I$H"
 # harness TUs only: no fake-stack frames (the factory and every step run per transition)
 HX="--param asan-use-after-return=0"
-CC="$SAN -I$REPO -I$H"
-par g++ -c $CXX $HX $H/c15_c.cpp -o $BUILD/h_c.o
-# C++ harness TU: full build reads a few private members by name (-fno-access-control). If that
+
+# C++ harness TU: the full build reads a few private members by name (-fno-access-control). If that
 # does not compile (a private member was renamed - a behaviour-preserving change), fall back to
 # public observers only; a failure of the fallback as well is a real build failure.
-build_xx() {
-  if g++ -c $CXX $HX -fno-access-control $H/c15_xx.cpp -o $BUILD/h_xx.o 2> $BUILD/h_xx_full.log; then return 0; fi
-  g++ -c $CXX $HX -DC15_PUBLIC_ONLY $H/c15_xx.cpp -o $BUILD/h_xx.o || { cat $BUILD/h_xx_full.log; return 1; }
-  echo "NOTE: private state names changed, key built from public observers + reference state" >> $BUILD/notes.txt
+build_xx() { # $1 = object suffix, $2.. = extra flags
+  local sfx=$1; shift
+  local CXX="-std=c++17 $SAN $* -I$REPO -I$MC -I$H"
+  if g++ -c $CXX $HX -fno-access-control $H/c15_xx.cpp -o $BUILD/h_xx$sfx.o 2> $BUILD/h_xx_full$sfx.log; then return 0; fi
+  g++ -c $CXX $HX -DC15_PUBLIC_ONLY $H/c15_xx.cpp -o $BUILD/h_xx$sfx.o || { cat $BUILD/h_xx_full$sfx.log; return 1; }
+  [ -n "$sfx" ] || echo "NOTE: private state names changed, key built from public observers + reference state" >> $BUILD/notes.txt
 }
-par build_xx
-par g++ -c $CXX $REPO/igris/shell/vtermxx.cpp -o $BUILD/vtermxx.o
-par gcc -c $CC $H/c15_cshim.c -o $BUILD/cshim.o
-par gcc -c $CC $REPO/igris/shell/vterm.c -o $BUILD/vterm.o
-par gcc -c $CC $REPO/igris/util/numconvert.c -o $BUILD/numconvert.o
+objects() { # $1 = object suffix, $2.. = extra flags for every TU that contains repository code
+  local sfx=$1; shift
+  local CXX="-std=c++17 $SAN $* -I$REPO -I$MC -I$H" CC="$SAN $* -I$REPO -I$H"
+  par g++ -c $CXX $HX $H/c15_c.cpp -o $BUILD/h_c$sfx.o
+  par build_xx "$sfx" $*
+  par g++ -c $CXX $REPO/igris/shell/vtermxx.cpp -o $BUILD/vtermxx$sfx.o
+  par gcc -c $CC $H/c15_cshim.c -o $BUILD/cshim$sfx.o
+  par gcc -c $CC $REPO/igris/shell/vterm.c -o $BUILD/vterm$sfx.o
+  par gcc -c $CC $REPO/igris/util/numconvert.c -o $BUILD/numconvert$sfx.o
+}
+objects ""
+objects _nd -DNDEBUG
 par gcc -c -O1 -I$REPO $REPO/igris/dprint/dprint_func_impl.c -o $BUILD/dprint.o
 par gcc -c -O1 -I$REPO $REPO/igris/dprint/dprint_stub.c -o $BUILD/dstub.o
 par g++ -std=c++17 -O2 -c -I$MC $MC/mc.cpp -o $BUILD/mc.o
 parwait
-COMMON="$BUILD/numconvert.o $BUILD/dprint.o $BUILD/dstub.o $BUILD/mc.o"
-par g++ -fsanitize=address $BUILD/h_c.o $BUILD/cshim.o $BUILD/vterm.o $COMMON -lm -o $BUILD/c15_c
-par g++ -fsanitize=address $BUILD/h_xx.o $BUILD/vtermxx.o $COMMON -lm -o $BUILD/c15_xx
+for sfx in "" _nd; do
+  COMMON="$BUILD/numconvert$sfx.o $BUILD/dprint.o $BUILD/dstub.o $BUILD/mc.o"
+  par g++ -fsanitize=address $BUILD/h_c$sfx.o $BUILD/cshim$sfx.o $BUILD/vterm$sfx.o $COMMON -lm -o $BUILD/c15_c$sfx
+  par g++ -fsanitize=address $BUILD/h_xx$sfx.o $BUILD/vtermxx$sfx.o $COMMON -lm -o $BUILD/c15_xx$sfx
+done
 parwait
-echo "c $BUILD/c15_c" > $BUILD/runs.txt
-echo "cxx $BUILD/c15_xx" >> $BUILD/runs.txt
+# the cheap NDEBUG runs go first: ./check gives each run an equal share of what is left of the deadline
+SEL="sline_cap2to5,_big_,cfg_matrix,vterm_keys_cap3"
+{
+  echo "c_ndebug $BUILD/c15_c_nd --only $SEL"
+  echo "cxx_ndebug $BUILD/c15_xx_nd --only $SEL"
+  echo "c $BUILD/c15_c"
+  echo "cxx $BUILD/c15_xx"
+} > $BUILD/runs.txt
